@@ -51,6 +51,14 @@ RULE += (' ' +
          'field x 7 triples x every supported version, its decoded fields '
          'read after the context object moved to a version of the other '
          'layout. ')
+RULE += (' ' +
+         'Added in later rounds: packets with a foreign context written '
+         'through a logged-in Connection; overlapping encode/decode under '
+         'two contexts on opposite sides of 443/741 (positions, block '
+         'records); component carrier: every library packet with a Position '
+         'field x 7 triples x every supported version, its decoded fields '
+         'read after the context object moved to a version of the other '
+         'layout. ')
 LEVEL_TEXT = ('Differential testing against an independent bit-packing '
               'reference, exhaustive over all known protocol versions and a '
               'full boundary product of coordinates, sampled for random '
